@@ -7,7 +7,7 @@ Rust functions modelled:
   gix_pack::data::entry::Header::{write_to, size, as_type_id}, leb64_encode   gix-pack/src/data/entry/header.rs
   gix_pack::data::Entry::{from_bytes, from_read}, parse_header_info,
       streaming_parse_header_info                                             gix-pack/src/data/entry/decode.rs
-  gix_features::decode::{leb64, leb64_from_read}                              gix-features/src/decode.rs
+  gix_features::decode::{leb64, leb64_from_read}   (after fix 2c8e960d4: an 11th byte is InvalidData)   gix-features/src/decode.rs
   gix_pack::data::delta::{decode_header_size, apply}                          gix-pack/src/data/delta.rs
   (+ the way `File::resolve_deltas` calls them for a chain of one delta)
 
@@ -185,7 +185,8 @@ def fromBytes (t : TypeIds) (hashLen : Nat) (d : Bytes) : Dec :=
 
 inductive Rd (α : Type)
   | ok (a : α) (rest : Bytes)
-  | io
+  | io                   -- `ErrorKind::UnexpectedEof`
+  | invalid              -- `ErrorKind::InvalidData`: varint longer than 10 bytes
   | panic
   deriving Repr, DecidableEq
 
@@ -211,6 +212,7 @@ def parseHeaderInfoRd (d : Bytes) : Rd (Nat × Nat × Nat) :=
     match parseLoopRd (d.length + 1) c.toNat 1 (c.toNat % 16) 4 rest with
     | .ok (size, i) r => .ok (c.toNat / 16 % 8, size, i) r
     | .io => .io
+    | .invalid => .invalid
     | .panic => .panic
 
 def lebLoopRd : Nat → Nat → Nat → Nat → Bytes → Rd (Nat × Nat)
@@ -220,7 +222,7 @@ def lebLoopRd : Nat → Nat → Nat → Nat → Bytes → Rd (Nat × Nat)
       match rest with
       | [] => .io
       | b :: rest' =>
-        if i + 1 > 10 then .panic
+        if i + 1 > 10 then .invalid                       -- `if i > 10 { return Err(InvalidData) }`
         else if value + 1 ≥ u64 then .panic
         else
           let shifted := ((value + 1) * 128) % u64
@@ -238,6 +240,7 @@ inductive DecRd
   | ok (h : Header) (size : Nat) (consumed : Nat) (rest : Bytes)
   | errType (id : Nat)
   | io
+  | invalid
   | panic
   deriving Repr, DecidableEq
 
@@ -246,11 +249,13 @@ def fromRead (t : TypeIds) (hashLen : Nat) (d : Bytes) : DecRd :=
   match parseHeaderInfoRd d with
   | .panic => .panic
   | .io => .io
+  | .invalid => .invalid
   | .ok (ty, size, consumed) r =>
     if ty = t.ofsDelta then
       match leb64Rd r with
       | .panic => .panic
       | .io => .io
+      | .invalid => .invalid
       | .ok (dist, n) r2 => .ok (.ofsDelta dist) size (consumed + n) r2
     else if ty = t.refDelta then
       if hashLen > 20 then .panic                         -- &mut buf[..hash_len], buf = [0u8; 20]
@@ -420,6 +425,7 @@ def handle? : List String → Option String
       | .ok h size consumed rest => s!"ok:{headerObs h}:{size}:{consumed}:left={rest.length}"
       | .errType id => s!"err:type:{id}"
       | .io => "io"
+      | .invalid => "err:toolong"
       | .panic => "panic"
     some s!"mem={mem} stream={rd}"
   | ["lebdec", d] => do
@@ -430,6 +436,7 @@ def handle? : List String → Option String
     let rd := match leb64Rd d with
       | .ok (v, i) rest => s!"ok:{v}:{i}:left={rest.length}"
       | .io => "io"
+      | .invalid => "err:toolong"
       | .panic => "panic"
     some s!"mem={mem} stream={rd}"
   | ["apply", base, delta] => applyOp base delta
